@@ -30,11 +30,14 @@ REAL_VS_STUB = {"real": ["incomplete_cooperative.generators", "graph_game", "net
                 "stub": ["multiprocessing.Pool -> SimPool (process images)"],
                 "seams": ["hidden RNG streams (generators._gen, def-time default Generators, legacy np.random, "
                           "random) set from the tape", "generators._LAST_OWNER via process images",
-                          "line-granular thread interleaver (sim/simthreads.py)"]}
-ASSUMPTIONS = ["class membership is monitored on the draws made, with the documented relative tolerance 1e-9; it is "
+                          "line-granular thread interleaver (sim/simthreads.py)",
+                          "supplied Generator with a bounded burst of coincidences (StickyGenerator)"]}
+ASSUMPTIONS = ["every output sequence of the supplied random generator is a legal input: one call in three gets a "
+               "stream with one bounded burst of repeated integers / same-half uniforms",
+               "class membership is monitored on the draws made, with the documented relative tolerance 1e-9; it is "
                "not decided for all seeds", "documented exceptions (graph-weight-distribution family, round-robin "
                "factory) are exempt from the twin comparison only"]
-PROBES = ["twin_while_another_thread_generates", "returned_game_mutated_by_caller", "twin_across_entropy_jump", "twin_in_worker_fork", "twin_in_worker_fresh", "exception_family_drawn",
+PROBES = ["generator_met_a_burst_of_coincidences", "twin_while_another_thread_generates", "returned_game_mutated_by_caller", "twin_across_entropy_jump", "twin_in_worker_fork", "twin_in_worker_fresh", "exception_family_drawn",
           "cheerleader_drawn", "monotone_family_drawn"]
 TIERS = {
     "quick": {"runs": 40000, "wall": 40, "batch": 24, "shrink_s": 40},
@@ -60,15 +63,77 @@ def is_exception(key: str) -> bool:
     return fn is getattr(G, "graph_generator", None) or fn is getattr(G, "predictible_factory_generator", None)
 
 
-def draw(key: str, n: int, seed: int, consume: int = 0) -> np.ndarray:
+class StickyGenerator(np.random.Generator):
+    """A seeded numpy Generator whose stream contains one burst of coincidences (fault seam "rare draw").
+
+    Every output sequence of a random generator is a legal one; the interesting rare ones - the same integer
+    several times in a row, a run of uniforms that all fall into the same half - practically never come out of a
+    short seeded search although a long experiment campaign meets them.  During calls number `at` .. `at+length-1`
+    (counting calls of integers() and random()) the result is forced to repeat: integers() returns the value it
+    returned last for the same bounds (arrays are filled with one value), random() moves every value into the half
+    of [0, 1) in which the previous value lay.  The underlying bit stream advances as usual, the object is a pure
+    function of (seed, at, length), and the burst is bounded, so rejection loops terminate.
+    """
+
+    def __init__(self, seed: int, at: int, length: int) -> None:
+        super().__init__(np.random.PCG64(seed))
+        self._at, self._len, self._calls = at, length, 0
+        self._last_int: dict = {}
+        self._last_half: bool | None = None
+        self.bursts = 0
+
+    def _in_burst(self) -> bool:
+        c = self._calls
+        self._calls += 1
+        return self._at <= c < self._at + self._len
+
+    def integers(self, low, high=None, size=None, dtype=np.int64, endpoint=False):
+        r = super().integers(low, high, size, dtype, endpoint)
+        burst = self._in_burst()
+        try:
+            key = (int(low), None if high is None else int(high), bool(endpoint))
+        except (TypeError, ValueError):  # array bounds: left alone
+            return r
+        if burst:
+            prev = self._last_int.get(key)
+            if np.ndim(r) == 0:
+                if prev is not None:
+                    r = type(r)(prev) if isinstance(r, np.generic) else prev
+                    self.bursts += 1
+            elif np.size(r):
+                r = np.full_like(r, prev if prev is not None else r.flat[0])
+                self.bursts += 1
+        if np.size(r):
+            self._last_int[key] = int(np.asarray(r).flat[-1])
+        return r
+
+    def random(self, size=None, dtype=np.float64, out=None):
+        r = super().random(size, dtype, out)
+        burst = self._in_burst()
+        if out is not None:
+            return r
+        if burst and np.size(r):
+            half = self._last_half if self._last_half is not None else bool(np.asarray(r).flat[0] >= 0.5)
+            a = np.asarray(r)
+            moved = np.where((a >= 0.5) != half, (a + 0.5) % 1.0, a).astype(a.dtype)
+            r = moved if np.ndim(r) else type(r)(moved)
+            self.bursts += 1
+        if np.size(r):
+            self._last_half = bool(np.asarray(r).flat[-1] >= 0.5)
+        return r
+
+
+def draw(key: str, n: int, seed: int, consume: int = 0, sticky: tuple | None = None) -> np.ndarray:
     """Module-level so that it pickles by reference into a simulated worker.
 
     `consume` > 0: after the game has been described, its caller uses it the way real consumers do - in
     place (normalise it, overwrite values): a returned game belongs to the caller.
     """
     from incomplete_cooperative.generators import GENERATORS
-    g = GENERATORS[key](n, np.random.Generator(np.random.PCG64(seed)))
+    rng = np.random.Generator(np.random.PCG64(seed)) if sticky is None else StickyGenerator(seed, *sticky)
+    g = GENERATORS[key](n, rng)
     d = _describe(g, n)
+    d["bursts"] = int(getattr(rng, "bursts", 0))
     if consume:
         try:
             from incomplete_cooperative.normalize import normalize_game
@@ -114,6 +179,13 @@ def monitor(sim: Sim, key: str, n: int, seed: int, d: dict) -> None:
     sim.state(key, n)
 
 
+def draw_sticky(sim: Sim) -> tuple | None:
+    """One call in three gets a supplied generator with one burst of coincidences (see StickyGenerator)."""
+    if not sim.flip(1, 3, "rare-draws"):
+        return None
+    return (sim.choose(5, "burst-at"), 1 + sim.choose(6, "burst-length"))
+
+
 def run(sim: Sim) -> None:
     from incomplete_cooperative.generators import GENERATORS
     thorough = sim.tier == "thorough"
@@ -130,15 +202,15 @@ def run(sim: Sim) -> None:
         n = 3 + sim.choose(max_n - 2, "twin-n")
         if key == "oxs" and n > 6 and not thorough:
             n = 6
-        twins.append((key, n, sim.choose(2 ** 32, "twin-seed")))
+        twins.append((key, n, sim.choose(2 ** 32, "twin-seed"), draw_sticky(sim)))
     first: dict[int, dict] = {}
     pending = list(range(n_twins))
     second_pending: list[int] = []
     steps = 6 + sim.choose(11, "steps")
     disturbed: dict[int, int] = {}
 
-    def one_call(key: str, n: int, seed: int, in_worker: bool) -> dict:
-        sim.op("generate", key, n, in_worker)
+    def one_call(key: str, n: int, seed: int, in_worker: bool, sticky: tuple | None = None) -> dict:
+        sim.op("generate", key, n, in_worker, sticky)
         if key == "factory_cheerleader":
             sim.probe("cheerleader_drawn")
         with sim.guard("C10.generator_raised"):
@@ -146,15 +218,18 @@ def run(sim: Sim) -> None:
                 with simpool.installed(sim, image_model, cpu_count=2 + sim.choose(3, "cpus")):
                     import multiprocessing
                     with multiprocessing.Pool(processes=1 + sim.choose(4, "pool-size")) as p:
-                        extra = [(k2, n2, s2) for (k2, n2, s2) in [twins[sim.choose(n_twins, "filler")]]
+                        extra = [(k2, n2, s2, 0, st2) for (k2, n2, s2, st2) in [twins[sim.choose(n_twins, "filler")]]
                                  if sim.flip(1, 2, "filler?")]
-                        res = p.starmap(draw, extra + [(key, n, seed)])
+                        res = p.starmap(draw, extra + [(key, n, seed, 0, sticky)])
                 d = res[-1]
             else:
                 consume = sim.choose(3, "caller-mutates-returned-game")
                 if consume:
                     sim.probe("returned_game_mutated_by_caller")
-                d = draw(key, n, seed, consume)
+                d = draw(key, n, seed, consume, sticky)
+        if d.get("bursts"):
+            sim.fault("rare_coincidence_in_the_supplied_random_stream", d["bursts"])
+            sim.probe("generator_met_a_burst_of_coincidences")
         monitor(sim, key, n, seed, d)
         return d
 
@@ -172,7 +247,7 @@ def run(sim: Sim) -> None:
             n = 3 + sim.choose(min(max_n, 6) - 2, "other-n")
             if is_exception(key):
                 sim.probe("exception_family_drawn")
-            one_call(key, n, sim.choose(2 ** 32, "other-seed"), False)
+            one_call(key, n, sim.choose(2 ** 32, "other-seed"), False, draw_sticky(sim))
             for t in second_pending:
                 disturbed[t] = disturbed.get(t, 0) + 1
         elif what == "jump":
@@ -185,12 +260,12 @@ def run(sim: Sim) -> None:
                 sim.mutations += 1
         elif what == "first":
             t = pending.pop(sim.choose(len(pending), "which-first"))
-            key, n, seed = twins[t]
-            first[t] = one_call(key, n, seed, False)
+            key, n, seed, sticky = twins[t]
+            first[t] = one_call(key, n, seed, False, sticky)
             second_pending.append(t)
         else:
             t = second_pending.pop(sim.choose(len(second_pending), "which-second"))
-            key, n, seed = twins[t]
+            key, n, seed, sticky = twins[t]
             in_worker = use_pool and sim.flip(1, 2, "in-worker")
             if not in_worker and n <= 5 and sim.flip(1, 4, "threads"):
                 # the second twin is drawn while another caller thread is inside a generator too (the same key half
@@ -206,13 +281,13 @@ def run(sim: Sim) -> None:
                     except Exception:  # not judged here
                         pass
                 with sim.guard("C10.generator_raised"):
-                    d2 = simthreads.interleave(sim, [lambda: draw(key, n, seed), other_thread])[0]
+                    d2 = simthreads.interleave(sim, [lambda: draw(key, n, seed, 0, sticky), other_thread])[0]
                 monitor(sim, key, n, seed, d2)
                 sim.probe("twin_while_another_thread_generates")
                 disturbed[t] = disturbed.get(t, 0) + 1
                 sim.mutations += 1
             else:
-                d2 = one_call(key, n, seed, in_worker)
+                d2 = one_call(key, n, seed, in_worker, sticky)
             if in_worker:
                 sim.probe("twin_in_worker_" + image_model)
                 sim.mutations += 1
@@ -226,5 +301,6 @@ def run(sim: Sim) -> None:
             if a.shape != b.shape or a.tobytes() != b.tobytes():
                 sim.fail("C10.identically_seeded_calls_differ",
                          {"key": key, "n": n, "seed": seed, "in_worker": in_worker, "image_model": image_model,
+                          "burst_of_coincidences (at call, length)": sticky,
                           "disturbances_between": disturbed.get(t, 0),
                           "first": a.tolist()[:16], "second": b.tolist()[:16]})
